@@ -769,7 +769,8 @@ pub fn run_game(ctx: &Ctx, rep: &mut Report, c10: bool, c11: bool) {
                 let r = run.g.offer_draw(lib_color(c));
                 rep.count("op_offer_draw");
                 if !r {
-                    rep.violation("C10/offer-refused-in-long-log", format!("offer {} of a long log was refused although the game is open", i));
+                    // the statement does not oblige an open game to accept offers: not judged, the case ends
+                    rep.count("abst_refused_while_open");
                     break;
                 }
                 run.m.log.push(MAct::Offer(c));
